@@ -738,7 +738,8 @@ def gen_labels(r, strs_only=False):
     return tbl
 
 
-def gen_mws(r, tbl, side, p_raise=0.05):
+def gen_mws(r, tbl, side, p_raise=0.05, like=None):
+    """like: middleware specs already registered in the same case (gen_eq: a new middleware may equal one of them)"""
     n = r.choice([0, 1, 1, 2, 2, 2, 3, 3])
     names = ("pre_send", "post_send") if side == "send" else ("pre_execute", "on_error", "post_execute", "post_save")
     out = []
@@ -777,6 +778,7 @@ def gen_mws(r, tbl, side, p_raise=0.05):
             s[name] = h
         gen_shape(r, s, out)
         out.append(s)
+    gen_eq(r, out, like)
     return out
 
 
@@ -785,6 +787,8 @@ WALL_P = 0.12      # fraction of the receive cases run under a scripted, possibl
 LATE_P = 0.2       # fraction of the receive cases in which the broker gets things after its Receiver was constructed
 CHAIN_P = 0.25     # fraction of the send cases in which sends are consecutive steps on one kicker object
 SHAPE_P = 0.3      # fraction of the middlewares whose hooks are not all defined on a direct subclass of TaskiqMiddleware
+EQ_P = 0.12        # fraction of the stacks holding middlewares without plain identity semantics (__eq__ / __hash__ / truth)
+EQ_KINDS = ["dataclass"] * 4 + ["value"] * 4 + ["always", "always", "never", "raises", "identity", "identity"]
 
 
 def own_hooks(s):
@@ -840,6 +844,165 @@ def gen_shape(r, s, prev):
             else:
                 sh["at"][n] = r.choice(["base", "root"])
     s["shape"] = sh
+
+
+def gen_eq(r, out, like=None):
+    """middlewares that are distinct OBJECTS but do not have plain identity semantics (driver: eq_namespace).  A middleware is
+    registered per object: every instance handed to add_middlewares / with_middlewares is one entry of the stack (the
+    model's stack literal is unchanged), whatever ==, hash() or bool() say about it.  spec["eq"]:
+      kind  dataclass - a real @dataclass with a configuration field; 2-3 positions of the stack (adjacent or not) become
+                        instances of ONE such class (the spec is cloned), mostly with equal field values;
+            value     - hand-written __eq__ over a configuration key, equal across different classes;
+            always / never / raises - __eq__ is True for anything / False even for itself / raises;
+            identity  - default equality (only hash / truth vary);
+      key   the configuration (equal keys compare equal),  hash  value | none (unhashable) | id,
+      truth bool (__bool__ False) | len (__len__ 0) | absent.
+    like = specs registered earlier in the same case (the broker's stack when more middlewares are added between two
+    sends): with probability .7 one new middleware equals one of those that have `eq` - equal instances registered in
+    SEPARATE calls.  On the receive side the late-binding cases split one stack over two registration calls."""
+    protos = [s for s in (like or []) if s.get("eq")]
+    if not out:
+        return
+    if protos and r.random() < .7:
+        p = r.choice(protos)
+        j = r.randrange(len(out))
+        if p["eq"]["kind"] == "dataclass":
+            out[j] = eq_clone(p)
+        else:
+            out[j]["eq"] = dict(p["eq"])
+        if r.random() < .6:
+            eq_sync_twins(out)
+            return
+    elif r.random() >= EQ_P:
+        return
+    kind = r.choice(EQ_KINDS)
+    e = dict(kind=kind, key=r.choice([0, 0, 1, 2]), hash=r.choice(["value", "none", "id"]))
+    if kind == "identity" or r.random() < .2:
+        e["truth"] = r.choice(["bool", "len"])
+    n = len(out)
+    idxs = sorted(r.sample(range(n), min(n, r.choice([2, 2, 2, 3]))))
+    for k, i in enumerate(idxs):
+        ek = dict(e)
+        if k and r.random() < .2:
+            ek["key"] = e["key"] + 1          # same class, another configuration: not equal
+        if kind == "dataclass" and k:
+            out[i] = eq_clone(out[idxs[0]])
+        out[i]["eq"] = ek
+    eq_sync_twins(out)
+
+
+def eq_clone(p):
+    """another instance of the class of spec p: same hooks, same shape, same special methods"""
+    return json.loads(json.dumps(p))
+
+
+def eq_sync_twins(out):
+    """a `twin` is an instance of its predecessor's class: the two have the same special methods"""
+    for _ in range(len(out)):
+        for j in range(1, len(out)):
+            if not (out[j].get("shape") or {}).get("twin") or hook_sig(out[j]) != hook_sig(out[j - 1]):
+                continue
+            a, b = out[j - 1].get("eq"), out[j].get("eq")
+            if a and not b:
+                out[j]["eq"] = dict(a)
+            elif b and not a:
+                out[j - 1]["eq"] = dict(b)
+            elif a and b and {k: v for k, v in a.items() if k != "key"} != {k: v for k, v in b.items() if k != "key"}:
+                out[j]["eq"] = dict(a, key=b.get("key", 0))
+
+
+def hook_sig(s):
+    return {n: s.get(n) for n in HOOKS_ALL}
+
+
+def same_class(stack, i, j):
+    """do the middlewares at positions i < j of one registration sequence share their class (driver: make_mws)"""
+    a, b = stack[i], stack[j]
+    ea = {k: v for k, v in (a.get("eq") or {}).items() if k != "key"}
+    eb = {k: v for k, v in (b.get("eq") or {}).items() if k != "key"}
+    if ea != eb or hook_sig(a) != hook_sig(b):
+        return False
+    sa = {k: v for k, v in (a.get("shape") or {}).items() if k not in ("twin", "kind")}
+    sb = {k: v for k, v in (b.get("shape") or {}).items() if k not in ("twin", "kind")}
+    if ea.get("kind") == "dataclass":
+        return sa == sb
+    return all((stack[k].get("shape") or {}).get("twin") and hook_sig(stack[k]) == hook_sig(a) for k in range(i + 1, j + 1))
+
+
+def eq_result(stack, i, j):
+    """what `stack[i] == stack[j]` evaluates to for two distinct registered instances, i < j (scenario arithmetic for the
+    evidence distribution only - the oracles never use it): True / False / "raises" """
+    a, b = stack[i].get("eq") or {}, stack[j].get("eq") or {}
+
+    def one(x, y, same):
+        k = x.get("kind")
+        if k == "always":
+            return True
+        if k == "never":
+            return False
+        if k == "raises":
+            return "raises"
+        if k == "value":
+            return bool(y) and y.get("key", 0) == x.get("key", 0)
+        if k == "dataclass" and same:
+            return y.get("key", 0) == x.get("key", 0)
+        return None                      # NotImplemented
+    same = same_class(stack, i, j)
+    v = one(a, b, same)
+    if v is None:
+        v = one(b, a, same)
+    return False if v is None else v
+
+
+def count_eq(rep, case, per):
+    """instances without plain identity semantics in the stacks, pairs of DISTINCT registered instances that compare equal
+    (and how the two were registered), and hooks that fired on an instance equal to an earlier registered one"""
+    stacks = final_stacks(case)
+    if not any(s.get("eq") for st in stacks for s in st):
+        rep.count("mw-eq:case-without(all middlewares have identity semantics)")
+        return
+    rep.count("mw-eq:case-with")
+    late = case.get("late") or {}
+    # the registration call (and its kind) that brought each position of each stack
+    if case["type"] == "recv":
+        nb = late.get("mws_before", len(case["mws"])) if late else len(case["mws"])
+        calls = [[(0, "add_middlewares")] * nb +
+                 [(1, "with_middlewares" if late.get("style", "assign") != "assign" else "add_middlewares")] *
+                 (len(case["mws"]) - nb)]
+    else:
+        calls = [[(0, "add_middlewares")] * len(st) for st in [case["mws"]] + list(case.get("brokers") or [])]
+        for k, (S, cx) in enumerate(zip(case["sends"], send_ctx(case))):
+            op = S.get("op") or {}
+            if op.get("add_mws"):
+                calls[cx["b"]] += [(k + 1, "with_middlewares" if op.get("via_with") else "add_middlewares")] * \
+                    len(op["add_mws"])
+    dup = set()
+    for b, st in enumerate(stacks):
+        for s in st:
+            e = s.get("eq")
+            if e:
+                rep.count("mw-eq:kind:" + e["kind"])
+                rep.count("mw-eq:hash:" + ("unhashable" if e.get("hash") == "none" else e.get("hash", "id")))
+                rep.count("mw-eq:truth:" + {"bool": "__bool__-false", "len": "__len__-0"}.get(e.get("truth"), "truthy"))
+        for j in range(len(st)):
+            for i in range(j):
+                v = eq_result(st, i, j)
+                if v is False:
+                    continue
+                if v == "raises":
+                    rep.count("mw-eq:pair:==-raises")
+                    continue
+                dup.add(100 * b + j)
+                ci, cj = calls[b][i], calls[b][j]
+                how = "one-call(%s)" % cj[1] if ci[0] == cj[0] else "separate-calls(later:%s)" % cj[1]
+                rep.count("mw-eq:distinct-instances-comparing-equal:registered-in-" + how)
+                rep.count("mw-eq:distinct-instances-comparing-equal:" +
+                          ("same-class" if same_class(st, i, j) else "different-classes"))
+                rep.count("mw-eq:distinct-instances-comparing-equal:" + ("adjacent" if j == i + 1 else "not-adjacent"))
+    for evs in per:
+        for e in evs:
+            if e[0] == "hook" and e[2] in dup:
+                rep.count("mw-eq:hook-fired-on-instance-equal-to-an-earlier-one:" + e[1])
 
 
 def gen_recv(r, focus="c02", allow_d10=True):
@@ -1022,7 +1185,10 @@ def gen_chains(r, case):
                 b = r.choice([x for x in range(nb) if x != b])
                 op["broker"] = b
             elif single and k < .9:
-                op["add_mws"] = gen_mws(r, tbl, "send", p_raise=.06)[:2] or gen_mws(r, tbl, "send", p_raise=.06)[:1]
+                like = ([case["mws"]] + case["brokers"])[b] + \
+                    [x for S2 in sends[i + 1:j] for x in (S2.get("op") or {}).get("add_mws") or []]
+                op["add_mws"] = gen_mws(r, tbl, "send", p_raise=.06, like=like)[:2] or \
+                    gen_mws(r, tbl, "send", p_raise=.06, like=like)[:1]
                 op["via_with"] = r.random() < .5
             if r.random() < .3:
                 op["labels_add"] = r.choice([{"a": "w"}, {"c": "v"}, {"a": "x", "timeout": "3"}])
@@ -1043,6 +1209,7 @@ def gen_chains(r, case):
 # ------------------------------------------------------------------------------------- distribution
 def count_shapes(rep, case, per):
     """class shapes of the stack, and for every hook that FIRED where in the class hierarchy it is defined"""
+    count_eq(rep, case, per)
     stacks = final_stacks(case)
     for st in stacks:
         for s in st:
